@@ -8,7 +8,7 @@ import OpusProofs.SilkParamsPitchSpread
   decoder, NLSF2A, the gain dequantiser and `silk_decode_pitch`.
 -/
 namespace Opus.SilkCoreProofs
-open Opus Opus.SilkParams Opus.SilkCore Opus.Gen
+open Opus Opus.SilkParams Opus.SilkCore Opus.Gen Opus.Frozen
 
 /-- The index ranges the symbol layer delivers (C03 stage 1, `silkSyms_indices_in_range`), as far as
     `silk_decode_parameters` / `silk_decode_core` depend on them.  No condition on the gain indices, `lagIndex`, the NLSF
